@@ -175,6 +175,10 @@ def run(tier: str, seed: int) -> Result:
                     jobs.append(("equal", True, big, (c,), False))
         jobs.append(("equal", True, big, tuple(range(4096, nb, 4096)), False))
     jobs.append(("equal", True, ("ST", "BIG:32742", "ST"), (-1,), False))
+    # 6. a long session: the responder's nonce counter passes 2^16 (every frame must still decrypt and be delivered, in order)
+    long_app = ("ST*66000",)
+    nlong, _ = stream_layout("absent", False, long_app)
+    jobs.append(("absent", False, long_app, tuple(range(60000, nlong, 60000)), False))
     # 5. a user listener that unsubscribes itself from inside its first call (next to the all-types probe, and as the only
     #    subscriber of its type): the frames after it are still delivered, in order
     for lst in ("oneshot", "lone"):
